@@ -1,11 +1,36 @@
-"""C16: last will published exactly when a connection ends without DISCONNECT. See router_common.py; ghosts in RouterSys.tla."""
+"""C16: last will published exactly when a connection ends without DISCONNECT. Routing core: see router_common.py, ghosts in
+RouterSys.tla. The connection path around it (server/broker.rs remote(): which ends of a link lead to Event::PublishWill,
+link/remote.rs: how DISCONNECT ends the link) is covered by the decision table Will.tla, enumerated by TLC and executed row
+by row through the real remote() with a real router thread."""
+import json, os
+import vlib
 from checks import router_common as rc
 
 INV = ["NoPanic", "WillAtMostOnce", "WillNeverAfterDisconnect", "WillPublishedWhenDue", "DeliveredExactly", "NoSpurious", "QuiescentComplete", "RetainedRules"]
 
 
+def will_table(ctx):
+    bindir = vlib.build_harness(["wills"])
+    rows_path, res_path = ctx.path("will_rows.ndjson"), ctx.path("will_res.ndjson")
+    res = vlib.run_tlc(ctx, "MC_Will", cfg="MC_Will", workers=1, env={"OUT": rows_path}, timeout=600)
+    if not res.ok:
+        raise vlib.ToolError("Will.tla: the table does not imply the demanded property")
+    rows = open(rows_path).read().splitlines()
+    if ctx.quick:      # the keep-alive rows take 2.5 s of real time each (run concurrently); quick keeps a third of them
+        rows = [r for i, r in enumerate(rows) if '"end":"keepalive"' not in r or i % 3 == ctx.seed % 3]
+        open(rows_path, "w").write("\n".join(rows) + "\n")
+    summ = vlib.last_json(vlib.run_bin(os.path.join(bindir, "wills"), [rows_path, res_path], timeout=1800))
+    for r in summ["first_failed"][:6]:
+        ctx.violation("last will through remote(): %s: %s" % (json.dumps(r.get("row")), "; ".join(r.get("problems", []))[:400]), r)
+    ctx.extra_coverage = {"will_table_rows_executed": summ["rows"], "will_table_rows_failed": summ["failed"],
+                          "will_table": "Will.tla rows (will none/plain/retained x will QoS x end drop/protocol error/DISCONNECT/keep-alive x earlier connection with a fired will x "
+                                        "protocol version) through the real remote() and a real router thread; observed: what a standing subscriber sees, what a late subscriber gets as retained"}
+    ctx.extra_assumptions = ["the will-table rows run in real time on a multi-thread runtime with waits of 0.5-0.7 s for a will to arrive (will delay 0) and 2.3 s of silence for the keep-alive rows (keep-alive 1 s)"]
+
+
 def run(ctx):
     q = ctx.quick
+    will_table(ctx)
     own = dict(NetCid="MCNetCidOwn", NetWill="MCWill1", Topics="MCTopics1", Filters="MCFilters1")
     mc = [("c16_a", dict(Nets='{"n1", "n2", "n3"}', CIDs='{"c1", "c2", "c3"}', MaxConn=3, MaxPub=0, MaxSubOps=1, MaxCloses=2, SubQoS="{1}", Subscribers='{"n2"}',
                          Publishers="{}", EnUnsub="FALSE", EnDisconnect="TRUE"), own)]
